@@ -166,7 +166,8 @@ def oracle(case_line, impl_line):
         if t == 3:
             return ("C19:target-absent:after-%s" % after,
                     "after call #%d (%s) the target name does not exist (fault plan: %s)" % (k - 1, after, plan_txt))
-        return ("C19:partial:after-%s:fault-%s" % (after, "+".join(injected)),
+        before = sorted(set(ev[i]["kind"] for (i, c) in plan if c > 0 and i < min(k, len(ev)))) or ["none"]
+        return ("C19:partial:after-%s:fault-%s" % (after, "+".join(before)),
                 "after call #%d (%s) the target name refers to a file that is neither the complete previous file "
                 "nor the complete new file (fault plan: %s)" % (k - 1, after, plan_txt))
     if not plan and not any(e["kind"] == "rename" and e["result"] == 0 and e["path2"] == "target" for e in ev):
